@@ -125,6 +125,14 @@ func checkC01(e *Env) {
 		}
 	})
 
+	// entropies carved out of one caller-owned buffer, encoded one after the other
+	slabSentences := e.runSlabs(drv, "C01", e.pick(200, 4000), func(op *plan.Op, j int, want []byte, sentence string) string {
+		if exp := e.Model.Enc(want, int(op.L)); sentence != exp {
+			return "the sentence is not the BIP39 sentence of the slice as the caller wrote it: " + describeMismatch(sentence, exp, int(op.L))
+		}
+		return ""
+	})
+
 	// completeness of the enumerated factors
 	possible, firstPositions, firstSeen := 0, 0, 0
 	for s, size := range ref.EntSizes {
@@ -158,16 +166,17 @@ func checkC01(e *Env) {
 		"distinct_nontrivial": dist.Len(),
 		"rule":                "cases = walking-index entropies (every (position,index) pair of the first n-1 words), boundary bit/byte runs, and seeded random entropies continued until every SHA-256 first-byte value was seen per width (thorough: every index at the last position); a case is the pair (entropy, language); all are non-trivial (each is compared byte-for-byte with the independent bit-array encoder over the golden lists); distinct = distinct (entropy, language) pairs",
 		"samples":             smp.List(),
-		"position_index_pairs_seen_first_positions": firstSeen,
-		"position_index_pairs_possible_first":       firstPositions,
-		"last_position_indices_seen":                lastSeen,
-		"last_position_indices_possible":            5 * 2048,
-		"checksum_first_bytes_seen_per_width":       csCount,
-		"language_size_matrix":                      langSize.Map(),
-		"classes":                                   classes.Map(),
-		"calls_inside_histories":                    histCalls,
-		"children":                                  stats.Children,
-		"child_deaths":                              stats.Deaths,
+		"position_index_pairs_seen_first_positions":         firstSeen,
+		"position_index_pairs_possible_first":               firstPositions,
+		"last_position_indices_seen":                        lastSeen,
+		"last_position_indices_possible":                    5 * 2048,
+		"checksum_first_bytes_seen_per_width":               csCount,
+		"language_size_matrix":                              langSize.Map(),
+		"classes":                                           classes.Map(),
+		"calls_inside_histories":                            histCalls,
+		"sentences_from_entropies_carved_out_of_one_buffer": slabSentences,
+		"children":     stats.Children,
+		"child_deaths": stats.Deaths,
 	}, []string{
 		"golden lists in /verif/golden are the canonical BIP39 lists (English digest matches the published one)",
 		"crypto/sha256 of the Go standard library",
